@@ -26,10 +26,14 @@ def prepare(rp, ce, params):
         pre_vals = {}
     else:
         nsel = trace_val(ce, "n")
-        if nsel == 3: return None, "huge count: not replayed through a program (would allocate)"
-        n = nsel
         klen = trace_val(ce, "klen")
         key = (seq(m, "key") + [0] * 8)[:klen]
+        n = nsel
+        if nsel == 3:
+            # huge count: with the model's key the walk would take 2^63 steps; the last key of the key space ends it after one
+            # value, so the real code must answer (the judge compares real and reference on the input actually run)
+            key = [MAXW] * klen
+            n = MAXW
         has_contract = trace_val(ce, "contract_in_post") == 1
         post = {}
         for j in range(trace_val(ce, "n_post") if has_contract else 0):
@@ -39,7 +43,7 @@ def prepare(rp, ce, params):
         if trace_val(ce, "pre_fails") == 1: return None, "pre-state error path is not realised by the replay state"
     # reference walk
     vals, pre, cur, ci = [], {}, list(key), 0
-    for i in range(n):
+    for i in range(min(n, 4)):
         if cur is None: break
         t = tuple(cur)
         if has_contract and t in post and post[t] is not None:
